@@ -25,10 +25,6 @@ Definition lens_ok (ls : list qlen) : Prop :=
 Definition no_item_too_large (nb : bool) (ls : list qlen) : bool :=
   forallb (fun it : qlen => negb (item_too_large nb (fst it) (vlen_of (snd it)))) ls.
 
-(* the shape of finding D10: every item passes the per-item guard but the sum exceeds INT_MAX *)
-Definition sum_wraps (nb : bool) (ls : list qlen) : bool :=
-  no_item_too_large nb ls && (total_size nb ls >? INT_MAX).
-
 Lemma wrap32_small z : - 2147483648 <= z <= INT_MAX -> wrap32 z = z.
 Proof. unfold wrap32, INT_MAX. intros H. rewrite Z.mod_small by lia. lia. Qed.
 
@@ -43,68 +39,116 @@ Proof.
   destruct v, first; nia.
 Qed.
 
-Lemma required_loop_exact nb : forall ls first acc,
-  lens_ok ls -> no_item_too_large nb ls = true -> 0 <= acc ->
-  acc + total_loop nb first ls <= INT_MAX ->
-  required_loop nb first acc ls = ZOk (acc + total_loop nb first ls).
+(* an item that passes the per-item guard: 3x / 6x its lengths stays below INT_MAX *)
+Lemma item_ok_bounds nb kl vl :
+  0 <= kl -> 0 <= vl -> item_too_large nb kl vl = false ->
+  0 <= worst_case nb * kl <= INT_MAX - 3 /\ 0 <= worst_case nb * vl <= INT_MAX - 3.
 Proof.
-  induction ls as [|[kl v] r IH]; intros first acc Hl Hn Hacc Hb.
-  { cbn. f_equal. lia. }
-  inversion Hl as [|? ? [Hk Hv] Hr]; subst. cbn [fst snd] in *.
-  cbn [no_item_too_large forallb fst snd] in Hn. apply andb_prop in Hn. destruct Hn as [Hn1 Hn2].
-  cbn [required_loop total_loop] in *.
-  apply negb_true_iff in Hn1. rewrite Hn1.
-  pose proof (total_loop_nonneg nb r false Hr) as Ht. pose proof (worst_case_pos nb) as Hw.
-  set (add := (if first then 0 else 1) + worst_case nb * kl
-              + match v with None => 0 | Some _ => 1 + worst_case nb * vlen_of v end).
-  assert (add = (if first then 0 else 1) + worst_case nb * kl
-              + match v with None => 0 | Some vl => 1 + worst_case nb * vl end) as Eadd
-    by (unfold add; destruct v; reflexivity).
-  assert (0 <= add) as Hadd0 by (rewrite Eadd; destruct v, first; nia).
-  rewrite (wrap32_small add) by (unfold INT_MAX in *; lia).
-  rewrite wrap32_small by (unfold INT_MAX in *; lia).
-  rewrite IH; try assumption; try lia. f_equal. lia.
+  unfold item_too_large, INT_MAX. intros Hk Hv H. apply orb_false_iff in H. destruct H as [H1 H2].
+  destruct nb; cbn [worst_case] in *.
+  - change (2147483647 / 6) with 357913941 in *. lia.
+  - change (2147483647 / 3) with 715827882 in *. lia.
 Qed.
 
-Lemma required_loop_refuses nb : forall ls first acc,
-  no_item_too_large nb ls = false -> required_loop nb first acc ls = ZErr URI_ERROR_OUTPUT_TOO_LARGE.
+(* one turn of the chars-required loop: none of the int operations wraps, the two comparisons
+   together say "the new total would pass INT_MAX" *)
+Lemma required_step amp kr vpc acc :
+  0 <= amp <= 1 -> 0 <= kr <= INT_MAX - 3 -> 0 <= vpc <= INT_MAX - 2 -> 0 <= acc <= INT_MAX ->
+  ((kr >? int_sub (int_sub INT_MAX amp) vpc)
+   || (acc >? int_sub (int_sub (int_sub INT_MAX amp) kr) vpc)) = (acc + (amp + kr + vpc) >? INT_MAX)
+  /\ (acc + (amp + kr + vpc) <= INT_MAX ->
+      int_add acc (int_add (int_add amp kr) vpc) = acc + (amp + kr + vpc)).
 Proof.
-  induction ls as [|[kl v] r IH]; intros first acc Hn; [discriminate|].
-  cbn [no_item_too_large forallb fst snd] in Hn. cbn [required_loop].
-  destruct (item_too_large nb kl (vlen_of v)); [reflexivity|].
-  cbn [negb andb] in Hn. apply IH. exact Hn.
+  intros Ha Hk Hv Hacc. unfold int_sub, int_add.
+  rewrite (wrap32_small (INT_MAX - amp)) by (unfold INT_MAX in *; lia).
+  rewrite (wrap32_small (INT_MAX - amp - vpc)) by (unfold INT_MAX in *; lia).
+  rewrite (wrap32_small (INT_MAX - amp - kr)) by (unfold INT_MAX in *; lia).
+  rewrite (wrap32_small (INT_MAX - amp - kr - vpc)) by (unfold INT_MAX in *; lia).
+  rewrite (wrap32_small (amp + kr)) by (unfold INT_MAX in *; lia).
+  split.
+  - destruct (kr >? INT_MAX - amp - vpc) eqn:E1; destruct (acc >? INT_MAX - amp - kr - vpc) eqn:E2;
+      cbn [orb]; symmetry; lia.
+  - intros Hfit. rewrite (wrap32_small (amp + kr + vpc)) by (unfold INT_MAX in *; lia).
+    apply wrap32_small. unfold INT_MAX in *. lia.
 Qed.
 
-Lemma required_loop_ok_items nb : forall ls first acc r,
-  required_loop nb first acc ls = ZOk r -> no_item_too_large nb ls = true.
+(* the chars-required loop, completely: the exact total if every item passes the per-item guard
+   and the total does not exceed INT_MAX, otherwise the too-large code *)
+Lemma required_loop_spec nb : forall ls first acc,
+  lens_ok ls -> 0 <= acc <= INT_MAX ->
+  required_loop nb first acc ls =
+    if no_item_too_large nb ls && (acc + total_loop nb first ls <=? INT_MAX)
+    then ZOk (acc + total_loop nb first ls) else ZErr URI_ERROR_OUTPUT_TOO_LARGE.
 Proof.
-  intros ls first acc r H. destruct (no_item_too_large nb ls) eqn:E; [reflexivity|].
-  rewrite required_loop_refuses in H by assumption. discriminate.
+  induction ls as [|[kl v] r IH]; intros first acc Hl Hacc.
+  { cbn [required_loop total_loop no_item_too_large forallb andb].
+    rewrite Z.add_0_r. destruct (acc <=? INT_MAX) eqn:E; [reflexivity|lia]. }
+  inversion Hl as [|? ? [Hk Hv] Hr]; subst. cbn [fst snd] in Hk, Hv.
+  cbn [no_item_too_large forallb fst snd required_loop total_loop].
+  fold (no_item_too_large nb r).
+  destruct (item_too_large nb kl (vlen_of v)) eqn:Etl; [reflexivity|]. cbn [negb andb].
+  set (amp := if first then 0 else 1).
+  set (kr := worst_case nb * kl) in *.
+  set (vpc := match v with None => 0 | Some vl => 1 + worst_case nb * vl end).
+  (* (the quantified induction hypothesis in the context makes lia diverge: instantiate it first) *)
+  specialize (IH false (acc + (amp + kr + vpc)) Hr).
+  pose proof (total_loop_nonneg nb r false Hr) as Ht. clear Hl Hr.
+  assert (0 <= vlen_of v) as Hv0 by (destruct v; cbn [vlen_of]; lia).
+  destruct (item_ok_bounds nb kl (vlen_of v) Hk Hv0 Etl) as [Bk Bv]. fold kr in Bk.
+  (* valuePartChars: the addition 1 + valueRequiredChars does not wrap *)
+  assert (match v with None => 0 | Some _ => int_add 1 (worst_case nb * vlen_of v) end = vpc) as ->.
+  { unfold vpc. destruct v as [vl|]; [|reflexivity]. cbn [vlen_of] in *.
+    unfold int_add. apply wrap32_small. unfold INT_MAX in *. lia. }
+  assert (0 <= vpc <= INT_MAX - 2) as Bp.
+  { unfold vpc. destruct v as [vl|]; cbn [vlen_of] in *; unfold INT_MAX in *; lia. }
+  assert (0 <= amp <= 1) as Ba by (unfold amp; clear; destruct first; lia).
+  clearbody amp kr vpc.
+  destruct (required_step amp kr vpc acc Ba Bk Bp Hacc) as [Eg Eadd]. rewrite Eg.
+  replace (acc + (amp + kr + vpc + total_loop nb false r))
+    with (acc + (amp + kr + vpc) + total_loop nb false r) by ring.
+  destruct (acc + (amp + kr + vpc) >? INT_MAX) eqn:Eover.
+  - (* refused here: the total is above INT_MAX whatever follows *)
+    destruct (acc + (amp + kr + vpc) + total_loop nb false r <=? INT_MAX) eqn:E; [lia|].
+    rewrite andb_false_r. reflexivity.
+  - rewrite Eadd by lia. apply IH. lia.
 Qed.
 
-(* the figure is exact whenever the D10 shape is excluded, and an oversized item is refused *)
+(* uriComposeQueryCharsRequiredEx on lengths, for every non-empty list: the figure is the exact
+   total and at most INT_MAX, or the call is refused with the too-large code; it is refused
+   exactly when an item is beyond the per-item limit or the total is above INT_MAX *)
 Theorem chars_required_len_no_wrap nb ls :
-  ls <> [] -> lens_ok ls -> sum_wraps nb ls = false ->
+  ls <> [] -> lens_ok ls ->
   chars_required_len nb ls =
-    if no_item_too_large nb ls then ZOk (total_size nb ls) else ZErr URI_ERROR_OUTPUT_TOO_LARGE.
+    if no_item_too_large nb ls && (total_size nb ls <=? INT_MAX)
+    then ZOk (total_size nb ls) else ZErr URI_ERROR_OUTPUT_TOO_LARGE.
 Proof.
-  intros Hne Hl Hs. unfold chars_required_len. destruct ls as [|it r]; [congruence|].
-  unfold sum_wraps in Hs. destruct (no_item_too_large nb (it :: r)) eqn:En.
-  - cbn [andb] in Hs. unfold total_size in *. rewrite required_loop_exact; try assumption; try lia.
-    f_equal; lia.
-  - apply required_loop_refuses. assumption.
+  intros Hne Hl. unfold chars_required_len, total_size. destruct ls as [|it r]; [congruence|].
+  rewrite required_loop_spec by (assumption || (unfold INT_MAX; lia)). reflexivity.
 Qed.
 
-(* D10: with every item below the per-item limit the sum can still pass INT_MAX, and then the
-   function reports success with a wrapped (here negative) figure. *)
+Lemma chars_required_len_ok nb ls r :
+  lens_ok ls -> chars_required_len nb ls = ZOk r ->
+  no_item_too_large nb ls = true /\ r = total_size nb ls /\ 0 <= r <= INT_MAX.
+Proof.
+  intros Hl H. destruct ls as [|it ls']; [discriminate|].
+  rewrite chars_required_len_no_wrap in H by (assumption || discriminate).
+  pose proof (total_loop_nonneg nb _ true Hl) as Ht. fold (total_size nb (it :: ls')) in Ht.
+  destruct (no_item_too_large nb (it :: ls')); [|discriminate]. cbn [andb] in H.
+  destruct (total_size nb (it :: ls') <=? INT_MAX) eqn:E; [|discriminate].
+  injection H as <-. repeat split; lia.
+Qed.
+
+(* the witness of the former finding D10 (one item, key = value = 715827881 characters,
+   normalizeBreaks = false: every length passes the per-item guard, the total is 2^32 - 9; the
+   unrepaired code answered success and -9) is refused *)
 Definition d10_witness : list qlen := [(715827881, Some 715827881)].
 
-Theorem chars_required_no_wrap_refuted :
-  exists nb ls, ls <> [] /\ lens_ok ls /\ sum_wraps nb ls = true /\ total_size nb ls > INT_MAX
-                /\ chars_required_len nb ls = ZOk (-9).
+Theorem former_wrap_witness_refused :
+  lens_ok d10_witness /\ no_item_too_large false d10_witness = true
+  /\ total_size false d10_witness = 4294967287
+  /\ chars_required_len false d10_witness = ZErr URI_ERROR_OUTPUT_TOO_LARGE.
 Proof.
-  exists false, d10_witness. split; [discriminate|]. split.
-  { repeat constructor; cbn; lia. }
+  split. { repeat constructor; cbn; lia. }
   split; [vm_compute; reflexivity|]. split; vm_compute; reflexivity.
 Qed.
 
@@ -284,30 +328,29 @@ Proof.
     repeat split; try assumption; try lia.
 Qed.
 
+Lemma map_item_len_ok l : lens_ok (map item_len l).
+Proof.
+  apply Forall_forall. intros x Hx. apply in_map_iff in Hx. destruct Hx as [[k' v'] [<- _]].
+  cbn. split; [lia|]. destruct v'; cbn; [lia|trivial].
+Qed.
+
 (* the chars-required figure (+1 for the terminator) is always enough, and the text is no longer *)
 Theorem chars_required_sufficient stp nb l r :
-  chars_required stp nb l = ZOk r -> sum_wraps nb (map item_len l) = false ->
+  chars_required stp nb l = ZOk r ->
   forall cap, r + 1 <= cap ->
   exists log, compose_ex false stp nb cap l
               = COk (query_text stp nb l) (Z.of_nat (length (query_text stp nb l)) + 1) log
   /\ Z.of_nat (length (query_text stp nb l)) <= r.
 Proof.
-  intros Hr Hs cap Hcap. unfold chars_required in Hr.
-  assert (lens_ok (map item_len l)) as Hl.
-  { apply Forall_forall. intros x Hx. apply in_map_iff in Hx. destruct Hx as [[k' v'] [<- _]].
-    cbn. split; [lia|]. destruct v'; cbn; [lia|trivial]. }
-  destruct l as [|it l']; [discriminate|].
-  assert (no_item_too_large nb (map item_len (it :: l')) = true) as Hn
-    by (eapply required_loop_ok_items; exact Hr).
-  rewrite chars_required_len_no_wrap in Hr; [|discriminate|assumption|assumption].
-  rewrite Hn in Hr. injection Hr as Hr.
-  pose proof (total_loop_nonneg nb _ true Hl) as Ht. fold (total_size nb (map item_len (it :: l'))) in Ht.
+  intros Hr cap Hcap. unfold chars_required in Hr.
+  pose proof (map_item_len_ok l) as Hl.
+  destruct (chars_required_len_ok nb _ r Hl Hr) as (Hn & Er & Hr0 & Hrmax).
+  destruct l as [|it l']; [discriminate|]. unfold total_size in Er.
   destruct (compose_loop_succeeds stp nb (cap - 1) (it :: l') true [] [] Hn) as (o & w & lg & E).
-  { cbn [length]. unfold total_size in Hr. cbn [map] in *. lia. }
+  { cbn [length]. lia. }
   pose proof (compose_loop_inv stp nb r (it :: l') true [] []) as Hr_inv.
   destruct (compose_loop_succeeds stp nb r (it :: l') true [] [] Hn) as (o' & w' & lg' & E').
-  { cbn [length]. unfold total_size in Hr. cbn [map] in *. lia. }
-  assert (0 <= r) as Hr0 by (unfold total_size in *; cbn [map] in *; lia).
+  { cbn [length]. lia. }
   cbn [length] in Hr_inv. specialize (Hr_inv ltac:(lia) ltac:(constructor)). rewrite E' in Hr_inv.
   cbn [cres_inv] in Hr_inv. destruct Hr_inv as (Ho' & _ & Hlen' & _).
   pose proof (compose_ex_fits false stp nb cap (it :: l')) as F.
@@ -532,37 +575,34 @@ Qed.
 (* =========================================================================== *)
 Local Open Scope Z_scope.
 
-Lemma map_item_len_ok l : lens_ok (map item_len l).
-Proof.
-  apply Forall_forall. intros x Hx. apply in_map_iff in Hx. destruct Hx as [[k' v'] [<- _]].
-  cbn. split; [lia|]. destruct v'; cbn; [lia|trivial].
-Qed.
-
-(* outside the D10 shape the allocating variant either refuses (an oversized item, a total of
-   exactly INT_MAX) or returns the composed text, provided calloc grants total + 1 elements *)
+(* the allocating variant, completely: it refuses exactly when the chars-required pass refuses
+   (an oversized item, a total above INT_MAX), reports the allocation code for a total of exactly
+   INT_MAX or when calloc does not grant total + 1 elements, and otherwise returns the composed
+   text; the count handed to calloc is total + 1 <= INT_MAX, never a wrapped one *)
 Theorem compose_malloc_no_wrap cm stp nb l :
-  l <> [] -> sum_wraps nb (map item_len l) = false ->
-  total_size nb (map item_len l) + 1 <= cm ->
+  l <> [] ->
   compose_malloc cm stp nb l =
-    if negb (no_item_too_large nb (map item_len l)) then MErr URI_ERROR_OUTPUT_TOO_LARGE
+    if negb (no_item_too_large nb (map item_len l) && (total_size nb (map item_len l) <=? INT_MAX))
+    then MErr URI_ERROR_OUTPUT_TOO_LARGE
     else if total_size nb (map item_len l) =? INT_MAX then MErr URI_ERROR_MALLOC
+    else if total_size nb (map item_len l) + 1 >? cm then MErr URI_ERROR_MALLOC
     else MOk (query_text stp nb l).
 Proof.
-  intros Hne Hs Hcm. unfold compose_malloc.
+  intros Hne. unfold compose_malloc.
   pose proof (map_item_len_ok l) as Hl.
   assert (map item_len l <> []) as Hne' by (destruct l; [congruence|discriminate]).
-  pose proof (chars_required_len_no_wrap nb _ Hne' Hl Hs) as Hr.
+  pose proof (chars_required_len_no_wrap nb _ Hne' Hl) as Hr.
   unfold chars_required at 1. rewrite Hr.
-  destruct (no_item_too_large nb (map item_len l)) eqn:En; cbn [negb]; [|reflexivity].
+  destruct (no_item_too_large nb (map item_len l) && (total_size nb (map item_len l) <=? INT_MAX)) eqn:En;
+    cbn [negb]; [|reflexivity].
+  apply andb_prop in En. destruct En as [En Hmax].
   pose proof (total_loop_nonneg nb _ true Hl) as Ht. fold (total_size nb (map item_len l)) in Ht.
-  assert (total_size nb (map item_len l) <= INT_MAX) as Hmax
-    by (unfold sum_wraps in Hs; rewrite En in Hs; cbn [andb] in Hs; lia).
   remember (total_size nb (map item_len l)) as r eqn:Er.
   destruct (r =? INT_MAX) eqn:Ei; [reflexivity|].
-  rewrite Z.mod_small by (unfold INT_MAX in Hmax; lia).
-  destruct (r + 1 >? cm) eqn:Ec; [lia|].
-  assert (chars_required stp nb l = ZOk r) as Hcr by (unfold chars_required; rewrite Hr; reflexivity).
-  destruct (chars_required_sufficient stp nb l r Hcr Hs (r + 1) ltac:(lia)) as (lg & E & _).
+  rewrite Z.mod_small by (unfold INT_MAX in *; lia).
+  destruct (r + 1 >? cm) eqn:Ec; [reflexivity|].
+  assert (chars_required stp nb l = ZOk r) as Hcr by exact Hr.
+  destruct (chars_required_sufficient stp nb l r Hcr (r + 1) ltac:(lia)) as (lg & E & _).
   rewrite E. reflexivity.
 Qed.
 
